@@ -1,7 +1,7 @@
 (* C12 - delete_tags removes every live key carrying the tag.  The unchanged code violates the full property in two
    recorded ways (KNOWN_FINDINGS F20, F21); the faithful model therefore refutes the full statement (witnesses below,
    replayed on the implementation by corpus/C12), and what is proved is the part that does hold.  Statements only. *)
-From Cashews Require Import Base.Prelude Spec.TTLMap Model.Tags Run.C12 Proofs.TagsProofs.
+From Cashews Require Import Base.Prelude Spec.TTLMap Model.Tags Run.C12 Proofs.TagsProofs Proofs.TagsCompleteProofs.
 Open Scope Z_scope.
 
 (* a write with tags makes the key a member of each named tag's set at once, for every TTL (none, short, long) *)
@@ -16,6 +16,17 @@ Theorem C12_delete_tag_removes_every_member_partial : forall reg m now t,
   forall x, In x (set_of m now (tag_key t)) -> s_look (delete_tag reg m now t) now x = None.
 Proof. exact delete_tag_removes_every_member. Qed.
 Print Assumptions C12_delete_tag_removes_every_member_partial.
+
+(* the full completeness statement for histories without TTLs - where F20 cannot arise: for every history of tagged /
+   untagged set, incr, delete, delete_match and delete_tags, every registry (tags registered for the key or not) and
+   every order of writes, after delete_tags(t) no key whose latest write carried t is readable.  `istep` is the ghost
+   "tags carried by the latest write of each key"; Inv says every present key is a member of the set of each such tag. *)
+Theorem C12_complete_without_ttl : forall reg keys h, Forall not_tagkey keys -> Forall (fun te => ev_ok (snd te)) h ->
+  let '(m, i) := run_i reg keys empty (fun _ => []) h in
+  Inv m i /\
+  forall now t k, not_tagkey k -> In t (i k) -> s_look (tag_step reg keys m now (TDeleteTags t)) now k = None.
+Proof. exact tags_complete_nottl. Qed.
+Print Assumptions C12_complete_without_ttl.
 
 (* F20: the full completeness statement is false of the code: a short-TTL add shortens the tag set's life *)
 Theorem C12_tags_complete_refuted :
